@@ -1859,11 +1859,38 @@ static int64_t eval(Node *node) {
 // is a pointer to a global variable and n is a postiive/negative
 // number. The latter form is accepted only as an initialization
 // expression for a global variable.
+static int64_t eval3(Node *node, char ***label);
+
+// Reduce a folded value to the width and signedness of its type, as the
+// generated code would do at run time.
+static int64_t wrap_to_type(Type *ty, int64_t val) {
+  if (!is_integer(ty) || ty->kind == TY_BOOL)
+    return val;
+
+  switch (ty->size) {
+  case 1:
+    return ty->is_unsigned ? (int64_t)(uint8_t)val : (int64_t)(int8_t)val;
+  case 2:
+    return ty->is_unsigned ? (int64_t)(uint16_t)val : (int64_t)(int16_t)val;
+  case 4:
+    return ty->is_unsigned ? (int64_t)(uint32_t)val : (int64_t)(int32_t)val;
+  }
+  return val;
+}
+
 static int64_t eval2(Node *node, char ***label) {
   add_type(node);
 
   if (is_flonum(node->ty))
     return eval_double(node);
+
+  int64_t val = eval3(node, label);
+  if (label && *label)
+    return val;
+  return wrap_to_type(node->ty, val);
+}
+
+static int64_t eval3(Node *node, char ***label) {
 
   switch (node->kind) {
   case ND_ADD:
@@ -1923,14 +1950,13 @@ static int64_t eval2(Node *node, char ***label) {
   case ND_LOGOR:
     return eval(node->lhs) || eval(node->rhs);
   case ND_CAST: {
+    if (node->ty->kind == TY_BOOL && is_flonum(node->lhs->ty))
+      return eval_double(node->lhs) != 0;
+    if (is_flonum(node->lhs->ty) && node->ty->is_unsigned && node->ty->size == 8)
+      return (uint64_t)eval_double(node->lhs);
     int64_t val = eval2(node->lhs, label);
-    if (is_integer(node->ty)) {
-      switch (node->ty->size) {
-      case 1: return node->ty->is_unsigned ? (uint8_t)val : (int8_t)val;
-      case 2: return node->ty->is_unsigned ? (uint16_t)val : (int16_t)val;
-      case 4: return node->ty->is_unsigned ? (uint32_t)val : (int32_t)val;
-      }
-    }
+    if (node->ty->kind == TY_BOOL && !(label && *label))
+      return val != 0;
     return val;
   }
   case ND_ADDR:
@@ -2073,9 +2099,7 @@ static long double eval_double2(Node *node) {
   case ND_COMMA:
     return eval_double(node->rhs);
   case ND_CAST:
-    if (is_flonum(node->lhs->ty))
-      return eval_double(node->lhs);
-    return eval(node->lhs);
+    return eval_double(node->lhs);
   case ND_NUM:
     return node->fval;
   }
